@@ -214,6 +214,13 @@ class Type2Tag(Tag):
                 offset += tlv_l + 1 + (1 if tlv_l < 255 else 3)
 
             self._capacity = get_capacity(raw_capacity, offset, skip_bytes)
+            if ndef is not None:
+                # The message must be stored completely inside the data area.
+                head = offset + (4 if tag_memory[offset+1] == 0xFF else 2)
+                room = set(range(head, raw_capacity + 16)) - skip_bytes
+                if head > raw_capacity + 16 or len(ndef) > len(room):
+                    log.debug("ndef message tlv exceeds the data area")
+                    return None
             self._ndef_tlv_offset = offset
             self._tag_memory = tag_memory
             self._skip_bytes = skip_bytes
